@@ -10,7 +10,7 @@ import z3
 
 from .core import REAL, INT
 
-TRANSC = ('u_exp', 'u_ln', 'u_log10', 'u_sqrt', 'u_pow10')
+TRANSC = ('u_exp', 'u_ln', 'u_log10', 'u_sqrt', 'u_pow10', 'u_probit')
 _sk = itertools.count()
 
 
@@ -70,7 +70,7 @@ def transc_axioms(terms, uf, rounds=2):
     if not any(n in uf for n in TRANSC):
         return ax
     F = {n: (uf[n] if n in uf else z3.Function(n, REAL, REAL)) for n in TRANSC}
-    exp, ln, log10, sqrt, pow10 = (F[n] for n in TRANSC)
+    exp, ln, log10, sqrt, pow10, probit = (F[n] for n in TRANSC)
     x = z3.Real('x?')
     # always-true quantified basics with patterns (reach terms under binders)
     if 'u_exp' in uf:
@@ -143,6 +143,15 @@ def transc_axioms(terms, uf, rounds=2):
                 new.append(t == pow10(a.arg(0)) * pow10(a.arg(1)))
         for t1, t2 in (itertools.combinations(pa, 2) if rnd == 0 else ()):
             new.append((t1.arg(0) <= t2.arg(0)) == (t1 <= t2))
+        qa = list(apps['u_probit'].values())
+        if qa:
+            new.append(probit(z3.RealVal('1/2')) == 0)
+        for t in qa:
+            a = t.arg(0)
+            new.append(z3.Implies(z3.And(a > 0, a < 1), (a <= z3.RealVal('1/2')) == (t <= 0)))
+        for t1, t2 in (itertools.combinations(qa, 2) if rnd == 0 else ()):
+            a1, a2 = t1.arg(0), t2.arg(0)
+            new.append(z3.Implies(z3.And(a1 > 0, a1 < 1, a2 > 0, a2 < 1), (a1 <= a2) == (t1 <= t2)))
         sa = list(apps['u_sqrt'].values())
         for t in sa:
             a = t.arg(0)
